@@ -56,9 +56,16 @@ def plan(tier, seed):
     nsh = 10 if tier == 'quick' else 12
     for i in range(nsh):
         shards.append({'name': 'w1_%d' % i, 'kind': 'w1', 'N': N, 'combos': combos[i::nsh]})
-    S = 4 if tier == 'quick' else 6
-    shards.append({'name': 'w2_a', 'kind': 'w2', 'S': S, 'part': 0, 'parts': 2})
-    shards.append({'name': 'w2_b', 'kind': 'w2', 'S': S, 'part': 1, 'parts': 2})
+    if tier == 'quick':
+        shards.append({'name': 'w2_a', 'kind': 'w2', 'S': 4, 'part': 0, 'parts': 2})
+        shards.append({'name': 'w2_b', 'kind': 'w2', 'S': 4, 'part': 1, 'parts': 2})
+    else:
+        # S=5: 3 571 arrangement groups x 209 separating thresholds x 3 measures x 3 operators;
+        # S=6: 20 888 groups, a seeded sample of the 321 thresholds, '>=' only
+        for i in range(4):
+            shards.append({'name': 'w2_%d' % i, 'kind': 'w2', 'S': 5, 'part': i, 'parts': 4})
+        shards.append({'name': 'w2_s6', 'kind': 'w2', 'S': 6, 'part': 0, 'parts': 1, 'sample': 36,
+                       'seed': seed * 1000 + 9})
     n3 = 1500 if tier == 'quick' else 20000
     shards.append({'name': 'w3_a', 'kind': 'w3', 'n': n3, 'seed': seed * 1000 + 1})
     shards.append({'name': 'w3_b', 'kind': 'w3', 'n': n3, 'seed': seed * 1000 + 2})
@@ -186,8 +193,11 @@ def run_shard(shard, rec):
         ths = gen.small_fraction_thresholds(S)
         combos = [(m, t) for m in MEASURES3 for t in ths]
         combos = combos[shard['part']::shard['parts']]
+        if shard.get('sample'):
+            random.Random(shard.get('seed', 0)).shuffle(combos)
+            combos = combos[:shard['sample']]
         for (m, t) in combos:
-            for op in ('>=',) if rec.tier == 'quick' else ('>=', '>', '='):
+            for op in ('>=',) if (rec.tier == 'quick' or shard.get('sample')) else ('>=', '>', '='):
                 case = {'gen': 'w2', 'S': S, 'measure': m, 'threshold': t, 'comp_op': op}
                 st = run_case(case, rec, ssj, views)
                 rec.case(sig=('w2', S, m, t, op), nontrivial=bool(st and st.get('required')))
@@ -314,4 +324,4 @@ def coverage_extra(agg, tier):
             'tight_required_pairs': c.get('required_tight', 0),
             'straddling_pairs_excluded': c.get('straddling', 0),
             'exhaustive_subspaces': ['W2: every arrangement of every (a,b,o) with a,b<=%d at every '
-                                     'separating threshold' % (4 if tier == 'quick' else 6)]}
+                                     'separating threshold' % (4 if tier == 'quick' else 5)]}
